@@ -42,7 +42,12 @@ ASSUMPTIONS = ["a write is torn at a byte boundary; bytes beyond the torn point 
                "round 6: rich sessions (chunks selected in every way, the session's own header edited between chunks, every way of ending) are judged on the images "
                "after every low-level operation, torn inside every write (at every byte of the writes that touch header size / offset / counts) and on the file "
                "afterwards: an exception or a prefix of the chunks the session ACCEPTED (a call issued after close() that returns normally counts as accepted); "
-               "the model side is the guarded in-place rewrite (Model/LasEnd.v guarded_rewrite, C19_own_header_*), compared with the first close of every session"]
+               "the model side is the guarded in-place rewrite (Model/LasEnd.v guarded_rewrite, C19_own_header_*), compared with the first close of every session",
+               "round 7: 'the points that were being stored' are real-world points when the caller hands over scale-aware records: sessions whose chunks carry "
+               "their own scales / offsets (equal to or different from the destination's: a header with laspy's default scaling, a random one; an EMPTY or non-empty "
+               "original for an appender) are judged on x / y / z as laspy.read of the image reports them (within half a grid step of the destination of X * scale + "
+               "offset of the record given) and on every byte behind X/Y/Z; this part is on the implementation only (the Coq reader returns record bytes, scaling "
+               "is not modelled); the discipline that makes it hold (the rewrite never changes version / sizes / format / scales / offsets) is checked on the recorded operations"]
 
 READ_LIMIT = 4.0          # seconds granted to one laspy.read of an image of a few KB (a normal read takes < 1 ms)
 
@@ -941,6 +946,156 @@ def history_images(ctx, c):
     return out
 
 
+# ---------------------------------------------------------------------------------
+# round 7: SCALE-AWARE sessions - the chunks are records carrying their own scales / offsets (points read from another file), equal to or different
+# from the scaling of the header the writer was given / of the file appended to. What was written is a sequence of points with REAL-WORLD
+# coordinates: a crash image that announces the points under a scaling other than the one their raw integers are expressed in returns points that
+# were not written. Judged on x / y / z = X * scale + offset as laspy.read of the image reports them, and on every other byte of the records.
+# ---------------------------------------------------------------------------------
+def _read_world(img):
+    import laspy
+    las = laspy.read(io.BytesIO(img))
+    return (lasio.rec_bytes(las.points), las.header.point_format.size, [np.array(las.x, dtype=np.float64), np.array(las.y, dtype=np.float64), np.array(las.z, dtype=np.float64)],
+            [float(v) for v in las.header.scales], [float(v) for v in las.header.offsets])
+
+
+def _behind_xyz(recs, ps):
+    return b"".join(recs[i * ps + 12:(i + 1) * ps] for i in range(len(recs) // ps))
+
+
+def scaled_cases(ctx):
+    """dicts(kind, desc, base, ops, ps, other (the bytes of the accepted records behind X/Y/Z), world (3 arrays: the real-world coordinates of
+    original ++ accepted points), tol (3 floats: half a grid step of the destination + of the source), final, images)"""
+    import laspy
+    from laspy.lasappender import LasAppender
+    rng = ctx.rng
+    out = []
+    for it in range(ctx.n(36, 300)):
+        kind = ("writer", "appender")[it % 2]
+        ver = lasio.VERSIONS[(it // 2) % len(lasio.VERSIONS)]
+        try:
+            how_h = rng.choice(["default scaling", "default scaling", "random", "small"])
+            if how_h == "default scaling":
+                # a header created without saying anything about the scaling (laspy's defaults)
+                h = laspy.LasHeader(version=ver, point_format=rng.choice(lasio.COMPAT[ver]))
+            elif how_h == "small":
+                h = lasio.small_header(rng, ver)
+            else:
+                h = lasio.rand_header(rng, version=ver, nvlrs=rng.choice([0, 1]))
+            hs, ho = np.array(h.scales, dtype=np.float64), np.array(h.offsets, dtype=np.float64)
+            ps = h.point_format.size
+            rel = rng.choice(["same", "other", "other", "other scales", "other offsets"])
+            ss = hs * (rng.choice([0.1, 0.5, 2.0, 10.0]) if rel in ("other", "other scales") else 1.0)
+            so = ho + (np.array([rng.choice([1000.0, -250.0, 5000.0, 100000.0]) for _ in range(3)]) * hs if rel in ("other", "other offsets") else 0.0)
+            n0 = 0
+            world = [np.zeros(0), np.zeros(0), np.zeros(0)]
+            other = b""
+            base = b""
+            if kind == "appender":
+                n0 = rng.choice([0, 0, 0, 2, 5])       # an EMPTY original (no stored point depends on its scaling) in most sessions
+                A = lasio.sweep_points(rng, h, n0)
+                base = lasio.write_las(h, A)
+                world = [A.array[kx].astype(np.float64) * hs[j] + ho[j] for j, kx in enumerate("XYZ")]
+                other = _behind_xyz(lasio.rec_bytes(A), ps)
+            st = lasio.LogStream3(base)
+            via = rng.choice(["class", "open"])
+            if kind == "writer":
+                w = lasio.open_writer(st, h, via, {})
+                put = w.write_points
+            else:
+                st.seek(0)
+                w = laspy.open(st, mode="a", closefd=False) if via == "open" else LasAppender(st, closefd=False)
+                put = w.append_points
+                st.ops.clear()
+                st.trace.clear()
+            sizes = []
+            for ci in range(rng.choice([1, 2, 3])):
+                k = rng.choice([1, 2, 3, 7]) if ci == 0 else rng.choice([0, 1, 4])
+                c0 = lasio.sweep_points(rng, h, k, start=rng.randrange(16))
+                for kx in "XYZ":
+                    c0.array[kx] = np.array([rng.randrange(-30000, 30001) for _ in range(k)], dtype=np.int32)
+                first_same = rel != "same" and ci > 0 and rng.random() < 0.3     # a later chunk in the destination's own scaling
+                cs, co = (hs, ho) if first_same else (ss, so)
+                rec = laspy.ScaleAwarePointRecord(c0.array.copy(), c0.point_format, cs.copy(), co.copy())
+                want = [c0.array[kx].astype(np.float64) * cs[j] + co[j] for j, kx in enumerate("XYZ")]
+                put(rec)
+                world = [np.concatenate([a_, b_]) for a_, b_ in zip(world, want)]
+                other += _behind_xyz(lasio.rec_bytes(c0), ps)
+                sizes.append(k)
+            w.close()
+            tol = [0.5 * abs(hs[j]) * (1 + 1e-9) + 0.5 * abs(ss[j]) * (1e-9) for j in range(3)]
+            c = dict(kind=kind, base=base, ops=list(st.ops), ps=ps, other=other, world=world, tol=tol, final=st.getvalue(),
+                     desc=dict(lasio.describe_header(h), kind=kind, via=via, header_scaling=how_h, destination_scales=hs.tolist(), destination_offsets=ho.tolist(),
+                               chunk_scaling=rel, chunk_scales=ss.tolist(), chunk_offsets=so.tolist(), orig_points=n0, chunks=sizes))
+            c["images"] = scaled_images(ctx, c)
+            out.append(c)
+        except Exception as ex:
+            import traceback
+            out.append({"error": f"{type(ex).__name__}: {ex} | " + traceback.format_exc()[-500:], "desc": {"generator": f"scale-aware {kind} session", "version": ver}})
+    return out
+
+
+def scaled_images(ctx, c):
+    """after every operation; torn at EVERY byte of the writes of the in-place header rewrite (everything written below the first point after the
+    first data write) and of short writes, at 1 / half / all but one byte of the others"""
+    ops, base = c["ops"], c["base"]
+    out = []
+    data_seen = False
+    off = int.from_bytes(c["final"][96:100], "little") if len(c["final"]) >= 100 else 227
+    for k in range(len(ops) + 1):
+        out.append((f"after {k} operations", lasio.apply_ops(base, ops, k, 0)))
+        if k == len(ops) or ops[k][0] != "W":
+            continue
+        pos, n = ops[k][1], len(ops[k][2])
+        if pos >= off and n:
+            data_seen = True
+        rewrite = data_seen and pos < off
+        if (rewrite and n <= 64) or n <= 8 or ctx.thorough():
+            js = range(1, n)
+        else:
+            js = sorted(set([1, n // 2, n - 1]))
+        for j in js:
+            if 0 < j < n:
+                out.append((f"operation {k} (a write of {n} bytes at {pos}) torn at {j}", lasio.apply_ops(base, ops, k, j)))
+    return out
+
+
+def judge_world(r, c):
+    """the property on one reading of an image of a scale-aware session: a prefix of the points the session accepted - every byte behind X/Y/Z
+    as given, x / y / z within half a grid step of the destination of the real-world coordinates given"""
+    recs, ps, xyz, isc, iof = r
+    if ps != c["ps"] or len(recs) % ps:
+        return f"{len(recs)} bytes of records of {ps} bytes (the session writes records of {c['ps']} bytes)"
+    n = len(recs) // ps
+    total = len(c["world"][0])
+    if n > total:
+        return f"{n} records returned, the session accepted {total}"
+    got_other = _behind_xyz(recs, ps)
+    if got_other != c["other"][:len(got_other)]:
+        return f"{n} records returned; their bytes behind X/Y/Z are not those of the first {n} points the session accepted"
+    for j, kx in enumerate("xyz"):
+        want = c["world"][j][:n]
+        have = xyz[j]
+        tol = c["tol"][j] + 8 * np.spacing(np.maximum(np.maximum(np.abs(want), np.abs(have)), 1e-300))
+        with np.errstate(invalid="ignore"):
+            bad = np.flatnonzero(~(np.abs(want - have) <= tol))
+        if len(bad):
+            i = int(bad[0])
+            return (f"{n} records returned; {kx} of point {i} reads {have[i]!r}, the point written there has {kx} = {want[i]!r} (the image announces scales {isc} offsets {iof}; "
+                    f"the destination was given {c['desc']['destination_scales']} / {c['desc']['destination_offsets']}, the chunks came with {c['desc']['chunk_scales']} / {c['desc']['chunk_offsets']})")
+    return None
+
+
+_SCALED = None
+
+
+def scaled(ctx):
+    global _SCALED
+    if _SCALED is None:
+        _SCALED = scaled_cases(ctx)
+    return _SCALED
+
+
 _OVER = None
 _HIST = None
 _RICH = None
@@ -1074,7 +1229,7 @@ def correspond(ctx):
                          "with a half-refused chunk left, interrupted in turn at every operation and every byte of the point count). Round 6: rich writer / appender sessions "
                          "(chunks selected in every way, the source's format object changed in place, other files read / written meanwhile, the session's OWN header edited "
                          "between chunks - VLR of k records appended, VLR removed / grown, extra bytes, extra dimension -, close twice / close inside with / chunks after "
-                         "close, closefd False / True): images after every operation, torn inside every write, the file afterwards. non-trivial = image length "
+                         "close, closefd False / True): images after every operation, torn inside every write, the file afterwards. Round 7: writer / appender sessions fed with SCALE-AWARE records whose scaling equals / differs from the destination's (default-scaling headers, empty originals), images at every operation and every byte of the header rewrite judged on real-world coordinates. non-trivial = image length "
                          "> 227; distinct by image bytes (each distinct image is evaluated once)")
     dis = []
     cmds, meta, seen = [], [], set()
@@ -1376,6 +1531,52 @@ def search(ctx, seeds):
                            f"caller goes on after a write in {run['where']} failed with nothing stored"))
                     add(f"fault sequence ({plan['kind']}, {tag}): points that were not written", dict(d, image_hex=img.hex()[:4000]), why)
     _guarded(add, 'fault sequences', sec_fault_sequences)
+    def sec_scale_aware_sessions():
+        for c in scaled(ctx):
+            if "error" in c:
+                add("scale-aware session could not be run", c["desc"], c["error"])
+                continue
+            d = c["desc"]
+            ctx.count(f"scaled:{c['kind']}:{d['header_scaling']}:{d['chunk_scaling']}:{'empty original' if c['kind'] == 'appender' and not d['orig_points'] else 'n'}")
+            # the discipline behind it: the in-place header rewrite of close() only brings the counters / statistics / EVLR pointers up to date; the
+            # fields the stored records are INTERPRETED with (version, header size, offset to the points, format, record length, scales, offsets) are
+            # on disk before the first point and never change afterwards (the session's own header is not edited here)
+            first = c["base"] if c["kind"] == "appender" else next((lasio.apply_ops(c["base"], c["ops"], k_, 0) for k_, o_ in enumerate(c["ops"])
+                                                                    if o_[0] == "W" and o_[1] >= int.from_bytes(c["final"][96:100], "little") and len(o_[2])), c["final"])
+            for a_, b_, what in ((24, 26, "version"), (94, 100, "header size / offset to the points"), (104, 107, "point format / record length"), (131, 155, "scales"), (155, 179, "offsets")):
+                if first[a_:b_] != c["final"][a_:b_]:
+                    add(f"write discipline ({c['kind']}): the header rewrite at close changes the {what} the records already stored are read with", dict(d, field=what, bytes=[a_, b_]),
+                        f"bytes {a_}..{b_} were {first[a_:b_].hex()} when the first point was stored and are {c['final'][a_:b_].hex()} in the closed file: a crash inside the rewrite "
+                        "leaves a file that announces points under a scaling / layout they were not written in")
+                    break
+            fin = _with_timeout(lambda: _read_world(c["final"]), READ_LIMIT)
+            if fin[0] == "ok":
+                why = judge_world(fin[1], c)
+                if why is None and len(fin[1][0]) != len(c["world"][0]) * c["ps"]:
+                    why = f"the complete file gives back {len(fin[1][0]) // c['ps']} of the {len(c['world'][0])} points"
+                if why:
+                    add(f"scale-aware chunks ({c['kind']}): the complete file does not hold the points given (real-world coordinates)", dict(d, image_hex=c["final"].hex()[:6000]), why)
+                    continue
+            elif fin[0] == "err":
+                add(f"scale-aware chunks ({c['kind']}): the complete file cannot be read", dict(d, image_hex=c["final"].hex()[:6000]), fin[1])
+                continue
+            done = set()
+            for label, img in c["images"]:
+                if img in done:
+                    continue
+                done.add(img)
+                r = _with_timeout(lambda: _read_world(img), READ_LIMIT)
+                ctx.case(("scaled", img), nontrivial=len(img) > 227)
+                if r[0] == "hang":
+                    add("reader does not terminate (scale-aware session)", dict(d, image=label, image_hex=img.hex()[:6000]), "laspy.read still running")
+                    break
+                if r[0] == "ok":
+                    why = judge_world(r[1], c)
+                    if why:
+                        add(f"scale-aware chunks ({c['kind']}): an image yields points that were not written (real-world coordinates differ)" if " reads " in why else
+                            f"scale-aware chunks ({c['kind']}): an image yields points that were not written", dict(d, image=label, image_hex=img.hex()[:6000]), why)
+                        break
+    _guarded(add, 'scale-aware sessions', sec_scale_aware_sessions)
     return failing[:10]
 
 
